@@ -14,7 +14,7 @@ RULE = (
     "two option runs are slices of a master sequence over a pool of distinct options (shared / overlapping / prefix / "
     "suffix / ends-at-last-element runs), fresh sequences, or consecutive blocks ('sweep', to reach > 255 options); pool = "
     "up to 10 generated options of all kinds + 0..300 synthetic distinct endpoint options; run lengths 0..17 (16/17 rare); "
-    "flags reboot/unicast + six undefined bits; optionally one numeric field out of range. non-trivial = two runs share "
+    "configuration strings of every length 1..255 (random and, as fixed cases, all of them); flags reboot/unicast + six undefined bits; optionally one numeric field out of range. non-trivial = two runs share "
     "or overlap options, or a run >= 15, or > 200 options in the array, or an out-of-range field; distinct = distinct case JSON"
 )
 ASSUMPTIONS = [
@@ -106,6 +106,9 @@ def fixed_cases(tier):
             pos += ln
         ents.append(dict(base, run1=[total - 1], run2=[0]))
         out.append({"pool": [], "fill": 300, "flags": f, "oob": None, "entries": ents})
+    # a configuration string of every length 1..255 (bare key and key=value), referenced by both runs of one entry
+    for d in S.cfg_length_sweep():
+        out.append({"pool": [d], "fill": 0, "flags": f, "oob": None, "entries": [dict(base, run1=[0], run2=[0])]})
     # partial overlap at the end of the array, run ending at the last element
     out.append({"pool": [], "fill": 10, "flags": f, "oob": None,
                 "entries": [dict(base, run1=[0, 1], run2=[1, 2]), dict(base, run1=[2, 3], run2=[1, 2, 3]), dict(base, run1=[3], run2=[0, 1, 2])]})
